@@ -9,7 +9,7 @@ PROP_FILES = ['Properties/C15']
 EXTRA_OBLIGATION_FILES = ['Proofs/AtomPanel', 'Proofs/LockOrder', 'Proofs/PanelLocks', 'Proofs/PanelWF', 'Proofs/PanelOwn',
                           'Proofs/PanelC15', 'Proofs/PanelRefute', 'Extract/C15']
 TRUSTED = [
-    'atomic steps of the hand-written model as GENERATED obligations (Proofs/AtomPanel.v, re-proved on every run about coq/Gen/Atomicity.v; in a private re-generated copy under VERIF_EXTRA_OVERLAY): tools/lockscan (go/ast, syntactic types) is trusted to list, per function of internal/{server,multiplex,common,client}, every field access / call / sync/atomic operation with the critical sections (Lock..Unlock / RLock..RUnlock / deferred unlock, mutex identity by name) it lies in, every sync.Pool.Put with the later mentions of the object, and every variable a go statement shares with its spawner (anything it cannot resolve is in atomicity_errors, which must be empty); it does not follow calls (a region is what one function writes between Lock and Unlock), does no alias analysis, treats callbacks as running with no lock held, and counts call sites, not executions (a loop around one call site is invisible)',
+    'atomic steps of the hand-written model as GENERATED obligations (Proofs/AtomPanel.v, re-proved on every run about coq/Gen/Atomicity.v; in a private re-generated copy under VERIF_EXTRA_OVERLAY): tools/lockscan (go/ast, syntactic types) is trusted to list, per function of internal/{server,multiplex,common,client}, every field access / call / sync/atomic operation with the critical sections (Lock..Unlock / RLock..RUnlock / deferred unlock, mutex identity by name) it lies in, every sync.Pool.Put with the later mentions of the object, and every variable a go statement shares with its spawner (anything it cannot resolve is in atomicity_errors, which must be empty); it does not follow calls (a region is what one function writes between Lock and Unlock), does no alias analysis, treats callbacks as running with no lock held, and counts call sites, not executions (a loop around one call site is invisible); who removes entries (AtomReplay/AtomPanel/AtomMux): the scanner distinguishes element stores (w), delete/clear (del), assignment of the whole field (set), address-of (addr) and the map being handed on as a value (val); a delete on a local map is recorded under the name of that local',
     'Coq 8.16.1 kernel incl. vm_compute; all C15 theorems: Closed under the global context',
     'hand-written LTS coq/Model/Panel.v (GetSession = one atomic lookup-or-authorise-and-create step under sessionsM: generated obligation C15_sessions_guarded_by_sessionsM, re-proved from the Go source by tools/lockscan on every run); the session key is modelled as the identity of the session (dispatcher.go seals the reply with sesh.GetSessionKey() of the joined session; the fresh key is only used by MakeSession on creation)',
     'correspondence: harness/server/c15_test.go - batches of 2..32 simultaneous REAL handshakes (client.DirectTLS.Handshake, real ClientHello, real reply decryption) against the real dispatchConnection, real userPanel, real localManager on bolt, admin changes through the real API router, run with -race; compared with the extracted model (ocaml/c15_driver.ml) executing the same connections one after the other: NumSession per user after every phase',
